@@ -404,6 +404,9 @@ func (p *ProjectRunner) RestartProcess(name string) error {
 			log.Err(err).Msgf("failed to stop process %s", name)
 			return err
 		}
+		// a command may take longer than the back-off to react to the stop
+		// signal: the new instance must not be created before the old one ended
+		proc.waitForCompletion()
 		time.Sleep(proc.getBackoff())
 	}
 	verifYield("restart.afterStop", name)
